@@ -142,12 +142,12 @@ GetValueLk(l, m) ==
 (* what the caller of next() observes and records: g is a GetValueLk result *)
 Deliver(s, g) ==
     /\ regs' = [regs EXCEPT ![hnd[s] + 1] = g.l]
+    /\ res' = [res EXCEPT ![s] = "none"]
+    /\ wakes' = [wakes EXCEPT ![s] = 0]
     /\ IF g.eos
          THEN /\ pc' = [pc EXCEPT ![s] = "eos"]
-              /\ res' = [res EXCEPT ![s] = "eos"]
               /\ UNCHANGED recv
          ELSE /\ pc' = [pc EXCEPT ![s] = "idle"]
-              /\ res' = [res EXCEPT ![s] = "val"]
               /\ recv' = [recv EXCEPT ![s] = Append(@, g.v)]
 
 (* the unrepaired blocking conversion returns bool(value()) without check_next(): the caller sees
@@ -155,7 +155,8 @@ Deliver(s, g) ==
 DeliverStale(s, l) ==
     /\ regs' = [regs EXCEPT ![hnd[s] + 1] = l]
     /\ pc' = [pc EXCEPT ![s] = "idle"]
-    /\ res' = [res EXCEPT ![s] = "val"]
+    /\ res' = [res EXCEPT ![s] = "none"]
+    /\ wakes' = [wakes EXCEPT ![s] = 0]
     /\ recv' = [recv EXCEPT ![s] = Append(@, @[Len(@)])]
 
 -----------------------------------------------------------------------------
@@ -217,8 +218,8 @@ Ready(s) ==
     /\ LET r == AdvanceLk(Slot(s), mode[s]) IN
          /\ regs' = [regs EXCEPT ![hnd[s] + 1] = r.l]
          /\ pc' = [pc EXCEPT ![s] = IF r.ok THEN "fetch" ELSE "nr"]
-    /\ wakes' = [wakes EXCEPT ![s] = 0]
-    /\ UNCHANGED <<pubvars, nextFree, wakeq, hnd, mode, recv, res, start, oow, wasKicked, njoin, nkick>>
+    /\ res' = [res EXCEPT ![s] = "none"]
+    /\ UNCHANGED <<pubvars, nextFree, wakeq, hnd, mode, recv, wakes, start, oow, wasKicked, njoin, nkick>>
 
 Subscribe(s) ==
     /\ pc[s] = "nr" /\ CanAct
@@ -230,7 +231,7 @@ Subscribe(s) ==
 Fetch(s) ==
     /\ pc[s] = "fetch" /\ CanAct
     /\ Deliver(s, GetValueLk(Slot(s), mode[s]))
-    /\ UNCHANGED <<pubvars, nextFree, wakeq, hnd, mode, wakes, start, oow, wasKicked, njoin, nkick>>
+    /\ UNCHANGED <<pubvars, nextFree, wakeq, hnd, mode, start, oow, wasKicked, njoin, nkick>>
 
 (* next_ready(), publisher.h:490-494: await_ready(); if ready await_resume().  The caller cannot
    tell "not ready" from a consumed end of stream (documented).  The guard bounds repeated polls
@@ -243,8 +244,7 @@ Poll(s) ==
             THEN Deliver(s, g)
             ELSE /\ regs' = [regs EXCEPT ![hnd[s] + 1] = IF r.ok THEN g.l ELSE r.l]
                  /\ res' = [res EXCEPT ![s] = "notready"]
-                 /\ UNCHANGED <<pc, recv>>
-    /\ wakes' = [wakes EXCEPT ![s] = 0]
+                 /\ UNCHANGED <<pc, recv, wakes>>
     /\ UNCHANGED <<pubvars, nextFree, wakeq, hnd, mode, start, oow, wasKicked, njoin, nkick>>
 
 (* a whole `co_await sub.next()` of a real coroutine ("coro"), or `bool(sub.next())` ("block",
@@ -253,14 +253,14 @@ Poll(s) ==
 NextWhole(s, style) ==
     /\ style \in Styles /\ pc[s] = "idle" /\ CanAct
     /\ (style = "block" /\ ~FixBlocking) => recv[s] # <<>>     \* else value() of an empty optional: UB
-    /\ wakes' = [wakes EXCEPT ![s] = 0]
     /\ LET r == AdvanceLk(Slot(s), mode[s])
            a == AdvSuspendLk(r.l, s)
        IN IF r.ok THEN Deliver(s, GetValueLk(r.l, mode[s]))
           ELSE IF a.park
                  THEN /\ regs' = [regs EXCEPT ![hnd[s] + 1] = a.l]
                       /\ pc' = [pc EXCEPT ![s] = IF style = "coro" THEN "parked_c" ELSE "parked_b"]
-                      /\ UNCHANGED <<recv, res>>
+                      /\ res' = [res EXCEPT ![s] = "none"]
+                      /\ UNCHANGED <<recv, wakes>>
                  ELSE IF style = "block" /\ ~FixBlocking
                         THEN DeliverStale(s, a.l)
                         ELSE Deliver(s, GetValueLk(a.l, mode[s]))
@@ -284,7 +284,7 @@ WFetch(s) ==
     /\ IF pc[s] = "wfetch_b" /\ ~FixBlocking
          THEN DeliverStale(s, Slot(s))
          ELSE Deliver(s, GetValueLk(Slot(s), mode[s]))
-    /\ UNCHANGED <<pubvars, nextFree, wakeq, hnd, mode, wakes, start, oow, wasKicked, njoin, nkick>>
+    /\ UNCHANGED <<pubvars, nextFree, wakeq, hnd, mode, start, oow, wasKicked, njoin, nkick>>
 
 -----------------------------------------------------------------------------
 (* push_lk, publisher.h:254-274, up to lk.unlock(): np = new _pos, q1 = deque after the push_front's *)
@@ -352,7 +352,7 @@ TypeOK ==
     /\ pos \in 1..(MaxPub + 1)
     /\ \A i \in 1..Len(regs) : RegOK(regs[i])
     /\ \A s \in Subs : /\ pc[s] \in {"unborn", "idle", "nr", "fetch", "eos"} \cup Parked \cup WFetchPc
-                       /\ res[s] \in {"none", "val", "eos", "notready"}
+                       /\ res[s] \in {"none", "notready"}
                        /\ mode[s] \in {"all", "behind", "recent"}
     /\ \A i \in 1..Len(wakeq) : wakeq[i] \in Subs
 
